@@ -9,6 +9,7 @@
 package ws
 
 import (
+	"bufio"
 	"bytes"
 	"errors"
 	"fmt"
@@ -19,6 +20,7 @@ import (
 
 var _ = bytes.Equal
 var _ = fmt.Errorf
+var _ *bufio.Reader
 var _ = strings.IndexByte
 
 // ---------------------------------------------------------------------------
@@ -820,3 +822,87 @@ func specAccept(n []byte, i int) byte {
 //@   props C01 C08
 //@   ensures [f] result.Header.Fin && result.Header.OpCode == OpClose && result.Header.Rsv == 0 && !result.Header.Masked && result.Header.Length == int64(len(p)) && sameSlice(result.Payload, p)
 //@   assigns nothing
+
+// ---------------------------------------------------------------------------
+// Dialer.Upgrade (C10, C16, C17): decisions of the client handshake. The response is seen as a
+// ghost sequence of lines; request writing, extension matching and user callbacks are abstracted.
+
+func ufReaderOf(r io.Reader) *bufio.Reader   { return nil }
+func ufBuffered(b *bufio.Reader, at int) int { return 0 }
+func ufLineErr(b *bufio.Reader, i int) error { return nil }
+func linePos(b *bufio.Reader) int            { return inPos(io.Reader(b)) }
+func eqvStr(a, b string) bool                { return a == b }
+func wrOf(b *bufio.Writer) io.Writer         { return b }
+func rdOf(b *bufio.Reader) io.Reader         { return b }
+
+//@ func pbufio.GetReader
+//@   ensures [r] result != nil && result == ufReaderOf(w)
+//@   assigns nothing
+
+//@ func pbufio.GetWriter
+//@   ensures [w] result != nil
+//@   assigns nothing
+
+//@ func pbufio.PutReader
+//@   assigns nothing
+
+//@ func pbufio.PutWriter
+//@   assigns nothing
+
+//@ func bufio.Reader.Buffered
+//@   ensures [n] result == ufBuffered(b, linePos(b)) && result >= 0
+//@   assigns nothing
+
+//@ func bufio.Writer.Flush
+//@   assigns nothing
+
+//@ func readLine
+//@   trusted
+//@   requires [br] br != nil
+//@   ensures [pos] linePos(br) == old(linePos(br))+1
+//@   ensures [err] result1 == ufLineErr(br, old(linePos(br)))
+//@   assigns stream(rdOf(br))
+
+//@ func initNonce
+//@   trusted
+//@   assigns bytes(dst)
+
+//@ func httpWriteUpgradeRequest
+//@   trusted
+//@   assigns stream(wrOf(bw))
+
+//@ func matchSelectedExtensions
+//@   trusted
+//@   assigns nothing
+
+//@ func bytes.EqualFold
+//@   assigns nothing
+
+//@ func io.MultiReader
+//@   assigns nothing
+
+//@ func bytes.NewReader
+//@   assigns nothing
+
+//@ func strings.NewReader
+//@   assigns nothing
+
+//@ funcval func(status int, reason []byte, resp io.Reader) :: (status int, reason []byte, resp io.Reader)
+//@   assigns nothing
+
+//@ funcval func(key []byte, value []byte) (err error) :: (key []byte, value []byte) (err error)
+//@   assigns nothing
+
+//@ func Dialer.Upgrade
+//@   props C10 C16 C17
+//@   requires [conn] conn != nil && u != nil
+//@   ensures  [lineerr]  err == nil ==> forall(old(linePos(ufReaderOf(io.Reader(conn)))), linePos(ufReaderOf(io.Reader(conn))), func(i int) bool { return ufLineErr(ufReaderOf(io.Reader(conn)), i) == nil })
+//@   ensures  [handover] err == nil ==> (br == nil) == (ufBuffered(ufReaderOf(io.Reader(conn)), linePos(ufReaderOf(io.Reader(conn)))) == 0) && (br != nil ==> br == ufReaderOf(io.Reader(conn)))
+//@   ensures  [errnil]   err != nil ==> br == nil
+//@   ensures  [proto]    err == nil && hs.Protocol != "" ==> exists(0, len(d.Protocols), func(i int) bool { return eqvStr(hs.Protocol, d.Protocols[i]) })
+//@   loop 1 invariant [ok]   err == nil && br == ufReaderOf(io.Reader(conn)) && br != nil && headerSeen <= 7
+//@   loop 1 invariant [errs] forall(old(linePos(ufReaderOf(io.Reader(conn)))), linePos(br), func(i int) bool { return ufLineErr(br, i) == nil }) && linePos(br) >= old(linePos(ufReaderOf(io.Reader(conn))))
+//@   loop 1 invariant [proto] hs.Protocol == "" || exists(0, len(d.Protocols), func(i int) bool { return eqvStr(hs.Protocol, d.Protocols[i]) })
+//@   loop 2 invariant [ok]   err == nil && br == ufReaderOf(io.Reader(conn)) && br != nil && headerSeen <= 7
+//@   loop 2 invariant [errs] forall(old(linePos(ufReaderOf(io.Reader(conn)))), linePos(br), func(i int) bool { return ufLineErr(br, i) == nil }) && linePos(br) >= old(linePos(ufReaderOf(io.Reader(conn))))
+//@   loop 2 invariant [proto] hs.Protocol == "" || exists(0, len(d.Protocols), func(i int) bool { return eqvStr(hs.Protocol, d.Protocols[i]) })
